@@ -370,3 +370,62 @@ V("c15-weights-writer-fields-swapped", "C15", {"rule": "C15b", "contains": "weig
    "        weights = connector.assign(weights, index, beamsplitter.params[1])\n        index += 1\n        weights = connector.assign(weights, index, beamsplitter.params[0])\n        index += 1\n"))
 V("c15-preserving-trig-rewrite", "C15", "silent",
   (CL, "    c = np.cos(theta).astype(dtype)\n    s = np.sin(theta).astype(dtype)", "    c = np.sin(theta + np.pi / 2).astype(dtype)\n    s = np.cos(theta - np.pi / 2).astype(dtype)"))
+
+# ------------------------------------------------------------------------------------------- C14
+GST = "piquasso/_simulators/gaussian/state.py"
+V("c14-purity-constant", "C14", {"rule": "C14", "contains": "get_purity"},
+  (GST, "            hbar**self.d / np.sqrt(np.linalg.det(self.xxpp_covariance_matrix))", "            2**self.d / np.sqrt(np.linalg.det(self.xxpp_covariance_matrix))"))
+V("c14-mean-getter-no-hbar", "C14", {"rule": "C14", "contains": "xxpp_mean_vector"},
+  (GST, "        return dimensionless_xxpp_mean_vector * np.sqrt(self._config.hbar)", "        return dimensionless_xxpp_mean_vector * np.sqrt(2.0)"))
+V("c14-cov-setter-forgets-hbar", "C14", {"rule": "C14", "contains": "setter"},
+  (GST, "        dimensionless_cov = new_cov / self._config.hbar\n", "        dimensionless_cov = new_cov / 2.0\n"))
+V("c14-fidelity-mean-unscaled", "C14", {"rule": "C14", "contains": "fidelity"},
+  (GST, "        mu_2 = state.xpxp_mean_vector / np.sqrt(hbar)", "        mu_2 = state.xpxp_mean_vector"))
+V("c14-threshold-cov-unscaled", "C14", {"rule": "C14", "contains": "get_threshold_detection_probability"},
+  (GST, "            return calculate_click_probability_nondisplaced(\n                self.xpxp_covariance_matrix / hbar,", "            return calculate_click_probability_nondisplaced(\n                self.xpxp_covariance_matrix / 2,"))
+V("c14-string-moment-hbar-dropped", "C14", {"rule": "C14", "contains": "get_xp_string_moment"},
+  (GST, "second_order_moments = cov_xxpp / 2 + 0.5j * hbar * xp_symplectic_form(d)", "second_order_moments = cov_xxpp / 2 + 1.0j * xp_symplectic_form(d)"))
+V("c14-cov-getter-identity-scaled-wrong", "C14", {"rule": "C14", "contains": "xxpp_covariance_matrix"},
+  (GST, "        return dimensionless_xxpp_covariance_matrix * self._config.hbar", "        return dimensionless_xxpp_covariance_matrix * self._config.hbar + np.identity(2 * self.d)"))
+V("c14-preserving-sqrt-split", "C14", "silent",
+  (GST, "        m = (value[::2] + 1j * value[1::2]) / np.sqrt(2 * self._config.hbar)", "        m = (value[::2] + 1j * value[1::2]) / (np.sqrt(2) * np.sqrt(self._config.hbar))"))
+V("c14-preserving-hbar-local", "C14", "silent",
+  (GST, "        return dimensionless_xxpp_covariance_matrix * self._config.hbar", "        hbar = self._config.hbar\n        return hbar * dimensionless_xxpp_covariance_matrix"))
+
+# ------------------------------------------------------------------------------------------- C02
+V("c02-pnm-ratio-inverted", "C02", {"rule": "C02a", "contains": "normalized_cov"},
+  (GSS, "        hbar_in_calculations / (2.0 * hbar) * reduced_state.xxpp_covariance_matrix", "        hbar / (2.0 * hbar_in_calculations) * reduced_state.xxpp_covariance_matrix"))
+V("c02-pnm-mean-unscaled", "C02", {"rule": "C02a", "contains": "_generate_sample"},
+  (GSS, "        np.sqrt(hbar_in_calculations / hbar) * reduced_state.xxpp_mean_vector", "        reduced_state.xxpp_mean_vector / np.sqrt(2.0)"))
+V("c02-threshold-mean-unscaled", "C02", {"rule": "C02a", "contains": "calculate_click_probability"},
+  (GSS, "            reduced_state.xpxp_mean_vector / np.sqrt(hbar),", "            reduced_state.xpxp_mean_vector,"))
+V("c02-generaldyne-detcov-no-hbar", "C02", {"rule": "C02", "contains": "_get_generaldyne_samples"},
+  (GSS, "def _get_generaldyne_samples(state, modes, shots, detection_covariance):\n    indices = _map_modes_to_xpxp_indices(modes)\n\n    full_detection_covariance = state._config.hbar * scipy.linalg.block_diag(",
+   "def _get_generaldyne_samples(state, modes, shots, detection_covariance):\n    indices = _map_modes_to_xpxp_indices(modes)\n\n    full_detection_covariance = 2.0 * scipy.linalg.block_diag("))
+V("c02-evolved-state-detcov-no-hbar", "C02", {"rule": "C02a", "contains": "_get_generaldyne_evolved_state"},
+  (GSS, "def _get_generaldyne_evolved_state(state, sample, modes, detection_covariance):\n    full_detection_covariance = state._config.hbar * scipy.linalg.block_diag(",
+   "def _get_generaldyne_evolved_state(state, sample, modes, detection_covariance):\n    full_detection_covariance = scipy.linalg.block_diag("))
+V("c02-mean-prep-no-sqrt", "C02", {"rule": "C02a", "contains": "mean"},
+  (GSS, "        \"mean\"\n    ] * np.sqrt(state._config.hbar)", "        \"mean\"\n    ] * state._config.hbar"))
+V("c02-channel-Y-no-hbar", "C02", {"rule": "C02a", "contains": "deterministic_gaussian_channel"},
+  (GSS, "    Y = instruction._get_all_params(state._connector)[\"Y\"] * state._config.hbar", "    Y = instruction._get_all_params(state._connector)[\"Y\"] * 2"))
+V("c02-purefock-homodyne-unscaled", "C02", {"rule": "C02a", "contains": "homodyne"},
+  ("piquasso/_simulators/fock/pure/simulation_steps/homodyne.py", "    scaled_samples = sqrt_hbar * samples", "    scaled_samples = np.sqrt(2.0) * samples"))
+V("c02-draw-mean-shifted", "C02", {"rule": "C02b", "contains": "mean"},
+  (GSS, "        mean=mean,\n        cov=cov,", "        mean=2 * mean,\n        cov=cov,"))
+V("c02-outcome-order-reversed", "C02", {"rule": "C02c", "contains": "previous-outcome-first"},
+  (SIMF, "                subbranch.outcome = tuple([*branch.outcome, *subbranch.outcome])", "                subbranch.outcome = tuple([*subbranch.outcome, *branch.outcome])"))
+V("c02-preserving-half-cov", "C02", "silent",
+  (GSS, "    mean = state.xpxp_mean_vector[indices]\n", "    mean = 1.0 * state.xpxp_mean_vector[indices]\n"))
+
+# ------------------------------------------------------------------------------------------- C08
+V("c08-validate-cov-unscaled", "C08", {"rule": "C08", "contains": "_validate_cov"},
+  (GST, "            cov / self._config.hbar + 1j * symplectic_form(d)", "            cov / 2 + 1j * symplectic_form(d)"))
+V("c08-purity-constant", "C08", {"rule": "C08", "contains": "get_purity"},
+  (GST, "            hbar**self.d / np.sqrt(np.linalg.det(self.xxpp_covariance_matrix))", "            2**self.d / np.sqrt(np.linalg.det(self.xxpp_covariance_matrix))"))
+V("c08-fidelity-sigma-unscaled", "C08", {"rule": "C08", "contains": "fidelity"},
+  (GST, "        sigma_2 = state.xpxp_covariance_matrix / hbar", "        sigma_2 = state.xpxp_covariance_matrix"))
+V("c08-uncertainty-not-tested", "C08", {"rule": "C08", "contains": "uncertainty"},
+  (GST, "        if not is_positive_semidefinite(\n            cov / self._config.hbar + 1j * symplectic_form(d)\n        ):", "        if False:"))
+V("c08-preserving-hbar-alias", "C08", "silent",
+  (GST, "        if not is_positive_semidefinite(\n            cov / self._config.hbar + 1j * symplectic_form(d)\n        ):", "        hbar = self._config.hbar\n        if not is_positive_semidefinite(\n            cov / hbar + 1j * symplectic_form(d)\n        ):"))
